@@ -120,6 +120,16 @@ def layout_handler_semicolon_optional(dispatcher, node, before, after, prev):
         yield StreamFragment(';', lineno, colno, None, None)
 
 
+def layout_handler_semicolon_openbrace(dispatcher, node, before, after, prev):
+    # the EndStatement of a statement followed by the OpenBlock of a
+    # block statement; the node provided is the one being terminated.
+    _, lineno, colno = node.getpos(';', 0)
+    yield StreamFragment(';', lineno, colno, None, None)
+    # position implied, as with the other handlers for a normalized
+    # sequence that ends in a brace not owned by this node.
+    yield StreamFragment('{', 0, 0, None, None)
+
+
 def layout_handler_openbrace(dispatcher, node, before, after, prev):
     # required layout handler for the OpenBlock Format rule.
     _, lineno, colno = node.getpos('{', 0)
